@@ -374,6 +374,16 @@ def clause7_error_handlers(ctx, P, cg):
            "lines are only refused in strict mode" % strict)
 
 
+def clause7b_parser_limits(ctx, P):
+    """http_parser counts the bytes of the request line and ALL header lines against HTTP_MAX_HEADER_SIZE and fails the request
+    beyond it; cjet's own limit is per line (the read buffer).  The library's default is 80 KiB; a build that lowers it answers
+    valid upgrades that carry a few more headers (proxies, cookies) with 400 although every line fits"""
+    lim = Q.macro(P, "http_parser.c", "HTTP_MAX_HEADER_SIZE")
+    ctx.ob("C13.3 R-TABLE", P.fn("http_connection.c:read_start_line"), "parser-header-limit-not-lowered", isinstance(lim, int) and lim >= 80 * 1024,
+           "http_parser.c is compiled with HTTP_MAX_HEADER_SIZE=%s (library default 81920): a valid upgrade whose request line and "
+           "headers add up to more than that is answered with 400 although every single line fits the read buffer" % lim)
+
+
 def clause8_accepted_fd(ctx, P, cg):
     """the handlers of a freshly accepted descriptor either hand it to a buffered socket that stays alive, or close it - on
     every path"""
@@ -453,6 +463,7 @@ def run(ctx):
         clause5_callbacks(ctx, P, cg)
         clause6_target(ctx, P)
         clause7_error_handlers(ctx, P, cg)
+        clause7b_parser_limits(ctx, P)
         clause8_accepted_fd(ctx, P, cg)
         clause9_close_hands_over(ctx, P, cg)
         clause10_early_guards(ctx, P)
